@@ -5,7 +5,9 @@
    Model: TV.Conn.Model — hosts with listener binds and their SYN queues,
    connector futures (poll / cancel), the stream tables of every host (an entry
    is the existence of a socket in the connection's Stream data plane), links
-   with scripted maturing, partitions and the loopback path.  `final (init n cap
+   with their fault calls (hold, release, partition, repair and the one-way forms; a hold parks
+   messages, a repair leaves them parked, a release un-parks them), scripted maturing of single
+   messages, the network tick and the loopback path.  `final (init n cap
    lo hi) es` is the state after an arbitrary event list: theorems quantify over
    every interleaving of binds, connects, polls, cancels (also by timeout),
    accepts, listener drops and re-binds, data-plane calls on every established
@@ -148,23 +150,23 @@ Proof. exact cancel_no_entry. Qed.
    an elapsed timeout) removes the client entry (above) and sends a RST towards the destination
    (`send_abandon_rst`); wherever that RST is delivered, the accepting host no longer has an entry
    for the connection, so a stream accepted for a connector that gave up does not stay established. *)
-Theorem c12_abandon_resets_acceptor : forall w d c k,
+Theorem c12_abandon_resets_acceptor : forall w d c k pk,
   get_conn w c = Some k ->
-  exists k', get_conn (fst (deliver_msg w d {| m_cid := c; m_body := WSeg S.A S.PRst |})) c = Some k' /\
+  exists k', get_conn (fst (deliver_msg w d {| m_cid := c; m_body := WSeg S.A S.PRst; m_parked := pk |})) c = Some k' /\
              forall h, server_entry h k' = false.
 Proof. exact abandon_rst_resets_acceptor. Qed.
 
-(* Non-vacuity.  Three connectors on two hosts; the SYNs of connectors 0 and 1 are
-   delivered in the opposite order; connector 1 (first to arrive) gives up; the listener
+(* Non-vacuity.  Three connectors on two hosts over a held link; the SYNs of connectors 0
+   and 1 are let through one by one in the opposite order; connector 1 (first to arrive) gives up; the listener
    accepts connector 0 (skipping 1), then connector 2 from its own host through 127.0.0.1;
    a fourth connect to a port nobody listens on is refused; both sides drop and the tables
    are empty again.  On the semantics before fix 5100556 the refused and the cancelled
    connect each leave an entry: corpus/C12/refused_connect_residue.json. *)
 Definition h_demo : list ev :=
-  [Bind 1 1 IpUnspec 9000;
+  [Bind 1 1 IpUnspec 9000; Hold 0 1;
    Connect 0 1 (IpHost 1, 9000%N); Connect 0 2 (IpHost 1, 9000%N); Connect 1 3 (IpLoop, 9000%N);
    Connect 0 4 (IpHost 1, 9001%N);
-   Mature 0 1 [1]; Drain 1; Mature 0 1 [0]; Drain 1; Mature 0 1 [0]; Drain 1;
+   Mature 0 1 [1]; Tick; Drain 1; Mature 0 1 [0]; Tick; Drain 1; Mature 0 1 [0]; Tick; Drain 1;
    LoopStep 1; LoopStep 1;
    Cancel 1;
    Accept 1 1 100; Accept 1 1 101; Accept 1 1 102;
@@ -179,13 +181,65 @@ Example c12_nonvacuous :
   w_accepts w = [0%N; 2%N] /\
   (exists hs b, get_host w 1 = Some hs /\ h_binds hs = [(9000%N, b)] /\
                 b_arrived b = [1%N; 0%N; 2%N] /\ b_popped b = [(1%N, false); (0%N, true); (2%N, true)]) /\
-  map (fun i => nth i (snd (run (init 2 4 49152 65535) h_demo)) RNone) [14; 15; 16; 17; 18; 19; 20; 21; 22; 31; 32] =
+  map (fun i => nth i (snd (run (init 2 4 49152 65535) h_demo)) RNone) [18; 19; 20; 21; 22; 23; 24; 25; 26; 35; 36] =
     [RAccOk (IpHost 1, 9000%N) (IpHost 0, 49152%N); RAccOk (IpLoop, 9000%N) (IpLoop, 49152%N); RPending;
      RConnOk (IpHost 0, 49152%N) (IpHost 1, 9000%N); RInvalid; RConnOk (IpLoop, 49152%N) (IpLoop, 9000%N); RRefused;
      RCount 1; RCount 3; RCount 0; RCount 0].
 Proof.
   cbv zeta. split; [vm_compute; reflexivity|]. split; [|vm_compute; reflexivity].
   eexists. eexists. split; [vm_compute; reflexivity|]. vm_compute. repeat split; reflexivity.
+Qed.
+
+(* The link calls around the handshake.  `repair` makes the link healthy "without releasing any
+   held messages": what a hold parked (a SYN, the segments of an established stream) stays on the
+   link, parked.  `release` un-parks every message of the pair whatever state the link is in (also
+   after hold -> repair, when no direction is on hold any more), and the next tick of the network
+   moves all of them towards their hosts: nothing is left behind on a released link. *)
+Theorem c12_repair_keeps_parked : forall w a b,
+  map l_sent (w_links (do_repair w a b)) = map l_sent (w_links w).
+Proof.
+  intros w a b. unfold do_repair, on_pair. cbn [w_links set_links]. rewrite map_map.
+  apply map_ext. intros l. destruct (on_link l a b); reflexivity.
+Qed.
+
+Theorem c12_release_unparks : forall w a b l m,
+  In l (w_links (do_release w a b)) -> on_link l a b = true -> In m (l_sent l) -> m_parked m = false.
+Proof.
+  intros w a b l m Hl Ho Hm. unfold do_release, on_pair in Hl. cbn [w_links set_links] in Hl.
+  apply in_map_iff in Hl as (l0 & E & _). destruct (on_link l0 a b) eqn:H0.
+  - subst l. cbn [l_sent set_sent] in Hm. apply in_map_iff in Hm as (m0 & E & _). subst m. reflexivity.
+  - subst l. congruence.
+Qed.
+
+Theorem c12_release_then_tick_empties : forall w a b l,
+  In l (w_links (do_tick (do_release w a b))) -> on_link l a b = true -> l_sent l = [].
+Proof.
+  intros w a b l Hl Ho. unfold do_tick in Hl. cbn [w_links set_links] in Hl.
+  apply in_map_iff in Hl as (l1 & E & Hl1). subst l.
+  assert (Ho1 : on_link l1 a b = true) by exact Ho.
+  unfold flow_link. cbn [l_sent set_rdys set_sent].
+  pose proof (c12_release_unparks w a b l1) as U.
+  assert (forall m, In m (l_sent l1) -> m_parked m = false) as U' by (intros m Hm; exact (U m Hl1 Ho1 Hm)).
+  clear - U'. induction (l_sent l1) as [|m s IH]; [reflexivity|]. cbn [filter].
+  rewrite (U' m (or_introl eq_refl)). apply IH. intros m' Hm'. apply U'. right. exact Hm'.
+Qed.
+
+(* hold -> connect -> repair: the SYN stays parked on the healthy link (the connect pends, the
+   accept finds nothing); release -> tick: it arrives, the accept pairs it, the connect is Ok. *)
+Definition h_repair : list ev :=
+  [Bind 1 1 IpUnspec 9000; Hold 0 1; Connect 0 1 (IpHost 1, 9000%N);
+   Repair 0 1; Tick; Drain 1; Accept 1 1 100; Poll 0; View;
+   Release 0 1; Tick; Drain 1; Accept 1 1 101; Poll 0; View].
+
+Example c12_repair_release_example :
+  map (fun i => nth i (snd (run (init 2 4 49152 65535) h_repair)) RNone) [6; 7; 12; 13] =
+    [RPending; RPending; RAccOk (IpHost 1, 9000%N) (IpHost 0, 49152%N);
+     RConnOk (IpHost 0, 49152%N) (IpHost 1, 9000%N)] /\
+  (exists l, w_links (final (init 2 4 49152 65535) (firstn 9 h_repair)) = [l] /\
+             map m_parked (l_sent l) = [true] /\ l_held_ab l = false /\ l_held_ba l = false) /\
+  (exists l, w_links (final (init 2 4 49152 65535) h_repair) = [l] /\ l_sent l = []).
+Proof.
+  split; [vm_compute; reflexivity|]. split; eexists; (split; [vm_compute; reflexivity|]); vm_compute; repeat split; reflexivity.
 Qed.
 
 Check c12_no_residue.
@@ -206,3 +260,7 @@ Print Assumptions c12_no_residue.
 Print Assumptions c12_cancel_removes_entry.
 Print Assumptions c12_abandon_resets_acceptor.
 Print Assumptions c12_nonvacuous.
+Print Assumptions c12_repair_keeps_parked.
+Print Assumptions c12_release_unparks.
+Print Assumptions c12_release_then_tick_empties.
+Print Assumptions c12_repair_release_example.
